@@ -72,7 +72,7 @@ class EG:
         d = self.draw
         if depth <= 0:
             return self.atom()
-        k = d(st.sampled_from(["atom", "+", "*", "-", "/", "pow", "exp", "ln", "piecewise", "call", "time", "+", "*", "fn1", "minmax", "round", "logic"]))
+        k = d(st.sampled_from(["atom", "+", "*", "-", "/", "pow", "exp", "ln", "piecewise", "call", "time", "+", "*", "fn1", "minmax", "round", "logic", "rem"]))
         if k == "atom":
             return self.atom()
         if k == "fn1":
@@ -88,6 +88,15 @@ class EG:
             if len(FN1[f]) > 2:
                 u = ["*", ["num", FN1[f][2]], u]
             return ["fn1", f, u if shift == 0.0 else ["+", ["num", shift], u]]
+        if k == "rem":
+            # remainder of a positive value (floored and truncated definitions agree there), inside a product with a
+            # negative factor half of the time
+            self.feats.add("remainder")
+            x = self.expr(depth - 1)
+            r = ["rem", ["+", ["num", 1.0], ["*", x, x]], d(st.sampled_from([2.0, 0.5, 1.5]))]
+            if d(st.booleans()):
+                return ["neg", ["*", self.atom(), r]]
+            return ["*", self.atom(), r]
         if k == "minmax":
             self.feats.add("mathml_function")
             return [d(st.sampled_from(["min", "max"])), [self.expr(depth - 1) for _ in range(d(st.integers(2, 3)))]]
@@ -213,6 +222,8 @@ def to_formula(e) -> str:
         return f"{e[1]}({to_formula(e[2])})"
     if k in ("min", "max"):
         return f"{k}({', '.join(to_formula(a) for a in e[1])})"
+    if k == "rem":
+        return f"rem({to_formula(e[1])}, {e[2]!r})"
     if k == "num":
         return repr(float(e[1]))
     if k == "sym":
@@ -240,6 +251,8 @@ def ev(e, env: dict, fns: dict, t: float):
         return FN1[e[1]][0](ev(e[2], env, fns, t))
     if k in ("min", "max"):
         return (min if k == "min" else max)(ev(a, env, fns, t) for a in e[1])
+    if k == "rem":
+        return math.fmod(ev(e[1], env, fns, t), e[2])
     if k == "num":
         return float(e[1])
     if k == "sym":
@@ -818,7 +831,7 @@ def _examine(case: dict, ctx) -> Outcome:
 
 def floors(ctx) -> list[str]:
     c = []
-    for k in ["mode:plain", "mode:session", "mode:keywords", "mode:module_names", "function_definition", "rule_defined_stoichiometry", "compartment_size_not_1", "piecewise", "mathml_function", "mathml_function_of_negative_value", "logical_condition", "abs_of_exponential"]:
+    for k in ["mode:plain", "mode:session", "mode:keywords", "mode:module_names", "function_definition", "rule_defined_stoichiometry", "compartment_size_not_1", "piecewise", "mathml_function", "mathml_function_of_negative_value", "logical_condition", "abs_of_exponential", "remainder"]:
         if ctx.classes.get(k, 0) < 5:
             c.append(f"class {k} only {ctx.classes.get(k, 0)}")
     return c
